@@ -128,7 +128,7 @@ class QuicSession:
             output_builder = QUICOutputbuilder(self.output_buffer, self.binary_to_ip(self.server_ip).__str__(), self.binary_to_ip(self.client_ip).__str__(), self.server_port, self.client_port, self.server_mac_addr, self.client_mac_addr, self.portmap, self.ipv6)
             return output_builder.build(metadata)
         else:
-            return [(b"\x00", 0)]
+            return []
 
     def set_packet_number_spaces(self):
         # RTT_1 and RTT_0 are in same packet_number space 12.3
